@@ -378,11 +378,31 @@ send_resp_32(RegP *p, const RPFrame *frame, RPResponse code, const uint32_t pl,
 
 static inline size_t trxbufsize(const RegP *p);
 
+/* "Supported Transports": Serial channels mandate the header checksum for all
+ * messages and the payload checksum for messages that carry payload. */
+static bool
+frame_fits_transport(const RegP *p, const RPFrame *f)
+{
+    if (p->ep.type == RP_EP_TCP) {
+        return true;
+    }
+    if (regp_has_hdcrc(f) == false) {
+        return false;
+    }
+    return (f->payload.size == 0u || regp_has_plcrc(f));
+}
+
 static int
 send_early_response(RegP *p, ByteBuffer *hdrbuf, RPResponse code)
 {
     RPFrame frame;
     const int rc = parse_header(&frame, hdrbuf->data, hdrbuf->used);
+
+    if (rc >= 0 && p->ep.type != RP_EP_TCP && regp_has_hdcrc(&frame) == false) {
+        /* Not a header this channel can have delivered intact: Its sequence
+         * number and address must not be mirrored. */
+        return regp_resp_meta(p, RP_META_EHEADERENC);
+    }
 
     if (rc >= 0) {
         if (regp_is_request(&frame) == false) {
@@ -899,12 +919,13 @@ regp_recv(RegP *p, RPMaybeFrame *mf)
 
     int rc = parse_frame(&cs.buffer);
 
-    if (rc >= 0 && p->ep.type != RP_EP_TCP
-        && regp_has_hdcrc(mf->frame) == false)
+    if (rc != -EBADMSG && rc != -EILSEQ
+        && frame_fits_transport(p, mf->frame) == false)
     {
-        /* Serial channels mandate the header checksum: A frame that does not
-         * declare one is not protected at all (the option bits are part of
-         * what the checksum covers) and has a bad header encoding. */
+        /* A frame that does not declare the checksums its channel mandates is
+         * not protected (the option bits are part of what the header checksum
+         * covers) and has a bad header encoding, whatever else is wrong with
+         * it. */
         rc = -EBADMSG;
     }
 
